@@ -186,6 +186,7 @@ class C04(core.Check):
         for t in range(self.budget(120, 3000, boost)):
             w, _, nf, nc = self.run_sequence(res, self.rng.randint(3, 30 if not self.thorough else 60), lattice=True, oracle=False)
             worlds.append((w, {'seq': t}))
+        self.replace_exits(res, worlds)
         acctcorr.compare(res, worlds, 'corr/accounts-spot')
 
     def witness_sequences(self, res):
@@ -215,9 +216,38 @@ class C04(core.Check):
                 res.fail(**{'class': 'spot/position-not-base', 'input': {'ops': ops}, 'observed': posq, 'expected': base,
                             'params': {'at': ops[-1], 'sell_executed_on_closed_position': pos_before == 0 and side == 'sell'}})
 
+    def replace_exits(self, res, worlds=None):
+        """the standard way of moving exits: buy T, rest two sells a + b = T (LIMIT or STOP), cancel them, then rest ONE
+        sell for the whole base — which the property says is accepted (it plus the resting sells of its kind, now none,
+        does not exceed the base held).  Decimal splits whose float sum is inexact (0.1 + 0.7, 0.02 + 0.18, …)."""
+        r = self.rng
+        splits = [(0.1, 0.7), (0.7, 0.1), (0.02, 0.18), (0.03, 0.3), (0.3, 0.5), (0.1, 0.2), (0.25, 0.5), (1.1, 2.2), (0.07, 0.21)]
+        splits += [(round(r.randint(1, 99) / 100, 2), round(r.randint(1, 99) / 100, 2)) for _ in range(self.budget(12, 300))]
+        for (a, b) in splits:
+            for typ in ('LIMIT', 'STOP'):
+                tot = float(fr(a) + fr(b))
+                w = acctcorr.RealWorld('spot', 10_000.0, 0.0, 1, 1)
+                w.price(0, 100.0)
+                p = 110.0 if typ == 'LIMIT' else 90.0
+                ok = w.submit(0, 'buy', 'MARKET', tot, 100.0, False)
+                w.execute(0)
+                ok = ok and w.submit(0, 'sell', typ, a, p, True) and w.submit(0, 'sell', typ, b, p + 1, True)
+                w.cancel(1)
+                w.cancel(2)
+                accepted = ok and w.submit(0, 'sell', typ, tot, p, True)
+                res.seen(('replace-exits', a, b, typ), True)
+                res.count('sequences:replace-exits')
+                if worlds is not None:
+                    worlds.append((w, {'replace_exits': [a, b, typ]}))
+                elif not accepted:
+                    res.fail(**{'class': 'spot/rejection', 'input': {'ops': w.lines}, 'observed': w.replies[-1][:200],
+                                'expected': 'accepted: nothing is resting any more and the base balance equals the quantity',
+                                'params': {'at': w.lines[-1], 'split': [a, b], 'kind': typ}})
+
     def oracle(self, res, boost):
         jesse_env.setup()
         self.witness_sequences(res)
+        self.replace_exits(res)
         for t in range(self.budget(300, 8000, boost)):
             lattice = t % 2 == 0
             w, verdict, nf, nc = self.run_sequence(res, self.rng.randint(3, 40 if not self.thorough else 80), lattice, oracle=True)
